@@ -755,11 +755,18 @@ class Ctx:
                 raise RaiseSig(ZeroDivisionError("integer division or modulo by zero"))
             at = _i(a)
             if b > 0:
+                m = self._match_div_const(at, b)
+                if m is not None:
+                    return m
                 return SInt(at / b), SInt(at % b)
             # negative constant divisor: a // b == (-a) // (-b) ; a % b == -((-a) % (-b))
             return SInt((-at) / (-b)), SInt(-((-at) % (-b)))
         at, bt = _i(a), _i(b)
         key = (at.get_id(), bt.get_id())
+        if key not in self._divmod:
+            m = self._match_div(at, bt)
+            if m is not None:
+                self._divmod[key] = (m[0], m[1], True)
         if key in self._divmod:
             q, r, sign = self._divmod[key]
         else:
@@ -775,6 +782,59 @@ class Ctx:
                 self.assume(z3.And(bt < r, r <= 0))
             self._divmod[key] = (q, r, pos)
         return SInt(q), SInt(r)
+
+    def _match_div_const(self, at, b):
+        """a == A*b + k with a numeral 0 <= k < b  =>  (A, k)   (syntactic, exact)"""
+        if z3.is_mul(at):
+            args = [at]
+            k = 0
+        elif z3.is_add(at):
+            args = list(at.children())
+            nums = [t for t in args if z3.is_int_value(t)]
+            args = [t for t in args if not z3.is_int_value(t)]
+            k = sum(t.as_long() for t in nums)
+        else:
+            return None
+        if not (0 <= k < b) or not args:
+            return None
+        parts = []
+        for t in args:
+            if not z3.is_mul(t):
+                return None
+            fs = list(t.children())
+            coef = 1
+            rest = []
+            for f in fs:
+                if z3.is_int_value(f):
+                    coef *= f.as_long()
+                else:
+                    rest.append(f)
+            if coef % b != 0 or not rest:
+                return None
+            term = rest[0] if len(rest) == 1 else z3.Product(*rest)
+            parts.append(term if coef == b else (coef // b) * term)
+        A = parts[0] if len(parts) == 1 else z3.Sum(*parts)
+        return SInt(A), k
+
+    def _match_div(self, at, bt):
+        """division-uniqueness lemma applied syntactically: if a is literally A*b + x and the path
+        condition entails 0 <= x < b, then a // b == A and a % b == x."""
+        if not z3.is_add(at):
+            return None
+        args = list(at.children())
+        bid = bt.get_id()
+        for k, t in enumerate(args):
+            if z3.is_mul(t):
+                fs = list(t.children())
+                hit = [j for j, f in enumerate(fs) if f.get_id() == bid]
+                if hit:
+                    rest = [f for j, f in enumerate(fs) if j != hit[0]]
+                    A = rest[0] if len(rest) == 1 else z3.Product(*rest) if rest else z3.IntVal(1)
+                    others = [u for j, u in enumerate(args) if j != k]
+                    x = others[0] if len(others) == 1 else z3.Sum(*others) if others else z3.IntVal(0)
+                    if not self._feasible(z3.Not(z3.And(x >= 0, x < bt))):
+                        return A, x
+        return None
 
     def pow2(self, e):
         """2 ** e for symbolic int e >= 0 (uninterpreted, with instantiated lemmas)."""
